@@ -383,6 +383,8 @@ partial def readCases (h : IO.FS.Stream) : IO (Array (String × Array Driver.Che
       curOp := none; curOut := #[]
     else if l.startsWith "stats " then
       pure ()
+    else if l.startsWith "abort" && curOp.isNone then
+      steps := steps.push { op := ["<process died>"], out := [l] }
     else
       curOut := curOut.push l
   if let some op := curOp then steps := steps.push { op := op, out := curOut.toList }
